@@ -27,12 +27,28 @@ def reply_varbinds(rng, asked):
     return vbs
 
 
+def report_varbinds(rng):
+    """What a Report may carry: a usmStats counter (RFC 3414), a counter of the message processing
+    subsystem (snmpUnknownSecurityModels / snmpInvalidMsgs / snmpUnknownPDUHandlers, RFC 3412), something
+    else entirely, several counters, or nothing."""
+    r = rng.random()
+    if r < 0.5:
+        return [["1.3.6.1.6.3.15.1.1.%d.0" % rng.randint(1, 6), ["counter32", rng.randrange(2**32)]]]
+    if r < 0.7:
+        return [["1.3.6.1.6.3.11.2.1.%d.0" % rng.randint(1, 3), ["counter32", rng.randrange(2**32)]]]
+    if r < 0.8:
+        return [[gen.oid_text(gen.oid(rng)), gen.value(rng, gen.SAFE_KINDS)]]
+    if r < 0.9:
+        return [["1.3.6.1.6.3.15.1.1.%d.0" % k, ["counter32", rng.randrange(2**32)]] for k in rng.sample(range(1, 7), 2)]
+    return []
+
+
 class C07(Prop):
     id = "C07"
     rule = (
         "plans: one session {v1,v2c,v3 any level} x {sync,async}; 1-4 get/get_many calls; the (otherwise matching, correctly signed and "
         "encrypted) reply content is scripted: 0..n varbinds mixing values, NULL, the three exception values, duplicates, foreign OIDs, or a "
-        "Report; plus silent agent (timeout mapping). expected result from the documented table. non-trivial = a scripted reply was "
+        "Report; plus silent agent (timeout mapping). expected result from the documented table. Reports carry usmStats counters, RFC 3412 counters, arbitrary names, several or no varbinds. non-trivial = a scripted reply was "
         "delivered; distinct = distinct abstract trace plus the shape of the reply (count and kinds of varbinds)"
     )
     quick_runs = 30000
@@ -69,7 +85,7 @@ class C07(Prop):
             if r < 0.1:
                 scripts["%d:1" % opid] = {"replies": [{"k": "none"}]}
             elif r < 0.25 and family == "v3":
-                scripts["%d:1" % opid] = {"replies": [{"k": "custom", "pdu": "report", "varbinds": [["1.3.6.1.6.3.15.1.1.%d.0" % rng.randint(1, 6), ["counter32", rng.randrange(2**32)]]], "rewrite": dict(rng.choice([{}, {"noauth": 1}]), **rng.choice([{}, {"request-id": "zero"}, {"request-id": "xor1"}, {"request-id": rng.randrange(2**31)}]))}]}
+                scripts["%d:1" % opid] = {"replies": [{"k": "custom", "pdu": "report", "varbinds": report_varbinds(rng), "rewrite": dict(rng.choice([{}, {"noauth": 1}]), **rng.choice([{}, {"request-id": "zero"}, {"request-id": "xor1"}, {"request-id": rng.randrange(2**31)}]))}]}
             else:
                 scripts["%d:1" % opid] = {"replies": [{"k": "custom", "pdu": "response", "varbinds": reply_varbinds(rng, asked), "error_status": rng.choice([0, 0, 0, 2, 5])}]}
         return {"flavour": flavour, "agent": agent, "sessions": [sess], "ops": ops, "scripts": scripts, "latency_ns": gen.latency(rng, 1000, 2_000_000)}
